@@ -50,6 +50,7 @@ type Engine struct {
 	rel      *relRun
 	lastLoad map[ssa.Value]*Loc
 	lastRet  []ssa.Value
+	borrowed map[*ssa.BasicBlock]*LoopSpec // loop clauses taken from another contract for a loop that has none (exec.go)
 }
 
 func (e *Engine) obligation(st *State, kind, label string, goal Term, note string) {
